@@ -69,6 +69,7 @@ def gen_pair(rng):
 def impl_miter(case):
     from cirbo.sat.miter import build_miter
     l, r = ct.build_circuit(case['left']), ct.build_circuit(case['right'])
+    semoracle.spoil_gadgets(len(case['left']['outputs']))
     try:
         m = build_miter(l, r)
     except Exception as e:  # noqa: BLE001
